@@ -60,6 +60,18 @@ func checkC09(c *Check) {
 	suffixes := c09Pairing(c, sp)
 	c09Disjoint(c, suffixes)
 	c09PostProcess(c)
+	// decoding the same bytes twice gives equal, independent models only if the
+	// codec package keeps nothing between two calls: no package-level variable of
+	// pkg/pbutil is written after initialisation (a decode cache that hands out
+	// the remembered module lets one caller's edits show in another's model)
+	var codecFns []*ssa.Function
+	for _, f := range p.RepoFuncs() {
+		if fnPkgPath(f) == pbutilPkg && f.Parent() == nil && !strings.HasSuffix(p.fnFile(f), "_test.go") {
+			codecFns = append(codecFns, f)
+		}
+	}
+	c07Globals(c, codecFns)
+	c.Okf("SHARED-GLOBAL", "scan", "-", "%d functions of the codec package scanned for writes to package-level variables", len(codecFns))
 }
 
 func c09Regex(c *Check, sp *ssa.Package) {
